@@ -58,6 +58,14 @@ CHECKS = {
    text="Under the SeedSequence model the k-th job gets child key (k,), ensembles (k,i), engines (k,i,0): checked on the real pick/prep_md_items for every abstract state and random outcome, on the real restart path (set_rgen/pick_lock, several workers) with numpy generators, and by call-site obligations for every in-process draw of every engine class. Two defects repaired (fix: 421ef4c, 4c0711b).",
    note="SeedSequence model cross-checked against numpy each run; restart clause bounded grid; call-site obligation is syntactic data-flow.",
    design="5/C07"),
+ "C13": dict(level="other", technique="BOUNDED stand-in (no contract within reach in the time available): exhaustive byte-cut enumeration of the real readers on small trajectories; not a deductive proof",
+   text="The real xyz_reader / lammpstrj_reader (via ReadAndProcessOnTheFly) and GromacsRunner.get_gromacs_frames are run natively over every single cut point (and all pairs for the smallest files) of small trajectories; every frame returned must be value-identical to the written frame at that position, the concatenation over all polls exactly the written frames once in order, and no call may raise. One defect found and repaired (fix: 771055c).",
+   note="Bounded: 1..3 atoms, 1..3 frames, several number formats, TRR single/double precision. Labelled bounded, never counted as proved; the E1 line model of DESIGN 5/C13 was not built.",
+   design="5/C13"),
+ "C19": dict(level="other", technique="bit-vector verification condition generated from the AST of swap_integer (z3); all text/regex codecs by BOUNDED native round-trip grids",
+   text="swap_integer proved (all 32-bit words) to be the byte reversal, an involution, and to recover the TRR magic number; swap_endian total on its domain. g96 / xyz / lammpstrj write-read round trips, frame-k extraction, TRR decoding for both byte orders and precisions (triclinic boxes), velocity reversal per format, and mdp / LAMMPS / CP2K template edits (exact entries, idempotent, CP2K as section trees) are bounded native grids.",
+   note="Only swap_integer/swap_endian are deductive; decimal-text round trips and regex editing are outside SMT reach and are bounded stand-ins.",
+   design="5/C19"),
 }
 NA = {
  "C01": "statistical convergence of an estimator over random histories; no pre/postcondition, invariant or lemma over function contracts expresses or decides it (DESIGN 5/C01). Its deterministic ingredients are decided under C02, C04, C09, C10.",
